@@ -325,6 +325,9 @@ class FunctionParser(BaseParser):
     def assign_generator_types(self, warn: bool = False):
         # https://docs.python.org/3/library/typing.html#typing.Generator
         if self.return_type and isinstance(self.return_type, type) and issubclass(self.return_type, Rule):
+            if not self.return_type.__args__:
+                # a bare Iterator / Generator / AsyncIterator ...: nothing is declared about what is yielded
+                return
             if self.is_generator:
                 if self.return_type.__origin__ in (Iterable, Iterator):
                     self.generator_yield_type = self.return_type.__args__[0]
